@@ -76,12 +76,12 @@ _p("C18", "other",
    "the level is therefore 'other', not 'proof'.",
    [PATHOPS, BRIDGE, CPY])
 
-_p("C20", "proof",
+_p("C20", "other",
    "affine_between and _round are executed symbolically with _try_affine opaque and shown to return only matrices that _try_affine accepted for the "
    "two shapes at the caller's tolerance (or the identity for almost-equal shapes); almost_equals, _affine_callback (per command family), the "
    "translation and identity cases are proved for symbolic coordinates. What is proved is the guarantee the code gives - every RELATIVE command within the "
    "tolerance - plus the lemma that absolute positions then differ by at most k x tolerance after k commands; that the absolute outline can drift beyond the "
-   "tolerance (F21) and the arc case of _affine_callback (F8) are recorded findings.",
+   "tolerance (F21) and the arc case of _affine_callback (F8) are recorded findings - the property as stated does not hold on this tree, so the level is 'other', not 'proof'.",
    [BRIDGE, CPY, MATH])
 
 _p("C04", "other",
